@@ -110,8 +110,12 @@ def check_property(pid, tier, seed, log=print):
     workers = int(os.environ.get('VP_WORKERS', '7'))
     with concurrent.futures.ThreadPoolExecutor(max_workers=workers) as ex:
         futs = {}
+        if tier == 'thorough':
+            # thorough = everything the quick tier proves (same solver budget, so the same verdict cache applies) PLUS the float
+            # instantiation of the jobs that have one, and no fail-fast: every obligation is decided even after a failure
+            os.environ['VP_NO_FAILFAST'] = '1'
         for j in jobs:
-            futs[ex.submit(BLD.run_job, j, tier)] = ('b1', j)
+            futs[ex.submit(BLD.run_job, j, 'quick')] = ('b1', j)
         for j in b2:
             futs[ex.submit(B2.run_job, j, tier)] = ('b2', j)
         for j in nat:
